@@ -50,7 +50,21 @@ Print Assumptions C02_undefined_symbol_rejected.
 Definition t (s : String.string) : text := text_of_string s.
 Local Open Scope string_scope.
 
-(* (f) the last sentence of the property: a program with code before its ORG is rejected (repair F45) *)
+(* (f) THE FIRST AND THE LAST SENTENCE of the property, for every accepted program: loading the emitted image at
+   the reported origin (0 when no ORG precedes the code) places the bytes of every statement that has any at the
+   address the listing shows for it - whatever ORGs the program contains, because an ORG that would tear the
+   image apart is rejected (false upstream: code before ORG and later ORGs were accepted and the last ORG was
+   reported; repair F45).  Hypothesis: each statement's reserved size equals its emitted bytes, which is
+   property C12's count (proved there per operand class, checked by the oracle on every case). *)
+Theorem C02_image_loads_at_origin :
+  forall fm lines r, assemble fm lines = Ok r ->
+    Forall (fun s => r_size s = N.of_nat (length (r_bytes s))) (r_stmts r) ->
+    forall k s, nth_error (r_stmts r) k = Some s -> r_bytes s <> [] ->
+      r_addr s = origin_value r + N.of_nat (length (concat (map r_bytes (firstn k (r_stmts r))))).
+Proof. exact image_loads_at_origin. Qed.
+Print Assumptions C02_image_loads_at_origin.
+
+(* a program with code before its ORG is rejected *)
 Example C02_noncontiguous_rejected :
   MProgram.assemble [] [t " NOP
 "; t " ORG $1000
